@@ -238,12 +238,13 @@ impl Hist {
             sink.clone(),
             BlockHeight::new(0),
         );
+        let cache_capacity = cfg.max_txs + 1;
         let mut h = Hist {
             cfg,
             focus,
             pool,
             sink,
-            model: Model::new(chain),
+            model: Model::new(chain, cache_capacity),
             fac: TxFactory::new(),
             rng,
             snap: Snap::default(),
@@ -904,16 +905,15 @@ impl Hist {
     }
 
     fn hits_forgotten_entry(&self, info: &TxInfo) -> bool {
-        let cap = self.cfg.max_txs + 1;
         (self.model.unsettled.contains_key(&info.id)
-            && self.model.cache_forgot(&Key::Tx(info.id), cap))
+            && self.model.cache_forgot(&Key::Tx(info.id)))
             || info.coins.iter().any(|(u, _)| {
             !self.snap.contains(u.tx_id())
                 && self.model.handed_out_coin(u).is_some()
-                && self.model.cache_forgot(&Key::Coin(*u), cap)
+                && self.model.cache_forgot(&Key::Coin(*u))
         }) || info.msgs.iter().any(|m| {
             self.model.handed_out_msg(&m.nonce).is_some()
-                && self.model.cache_forgot(&Key::Msg(m.nonce), cap)
+                && self.model.cache_forgot(&Key::Msg(m.nonce))
         })
     }
 
@@ -1717,6 +1717,21 @@ impl Hist {
         if let Op::Preconf { id, .. } = &step.op {
             self.seen.insert(*id);
         }
+        // committed while a pooled ancestor stays pooled: the ancestor's subtree totals
+        // inside the pool are not reduced (see c19)
+        if matches!(step.op, Op::Block { .. } | Op::Preconf { .. }) {
+            let g = Graph::of(&step.before);
+            for x in &incl {
+                if step.before.contains(x) && !step.after.contains(x) {
+                    for a in g.ancestors(x) {
+                        if step.after.contains(&a) {
+                            self.model.stale_stats.insert(a);
+                        }
+                    }
+                }
+            }
+        }
+        self.model.stale_stats.retain(|x| step.after.contains(x));
         // non-inclusion exits become resubmittable
         for x in step.before.txs.keys() {
             if !step.after.contains(x) && !incl.contains(x) {
@@ -1742,7 +1757,7 @@ impl Hist {
                 for t in &step.extracted {
                     self.model.seq += 1;
                     let (coin_outputs, contracts) = Model::static_outputs(t);
-                    self.model.log_spend(t, true);
+                    self.model.spend_extracted(t);
                     self.model.unsettled.insert(
                         t.id,
                         Unsettled {
@@ -1772,9 +1787,13 @@ impl Hist {
                 let in_block: BTreeSet<TxId> = txs.iter().map(|t| t.id).collect();
                 for t in txs {
                     self.seen.insert(t.id);
-                    let knew = step.before.contains(&t.id)
-                        || self.model.unsettled.get(&t.id).is_some_and(|u| u.knows_inputs);
-                    self.model.log_spend(t, knew);
+                    let handed_out = self
+                        .model
+                        .unsettled
+                        .get(&t.id)
+                        .is_some_and(|u| u.knows_inputs && u.state == UState::Extracted);
+                    self.model
+                        .spend_committed(t, step.before.contains(&t.id), handed_out);
                     self.model.unsettled.remove(&t.id);
                     self.model.removed.remove(&t.id);
                     self.model.rolled_back.remove(&t.id);
@@ -1805,6 +1824,9 @@ impl Hist {
                 let deps = self.unsettled_dependents(&rolled.iter().copied().collect());
                 self.force_skips(deps);
                 for id in rolled {
+                    if let Some(u) = self.model.unsettled.get(&id).cloned() {
+                        self.model.unspend(&u.info, u.knows_inputs);
+                    }
                     self.model.unsettled.remove(&id);
                     if !step.after.contains(&id) {
                         self.model.rolled_back.insert(id);
@@ -1832,6 +1854,8 @@ impl Hist {
                         && u.state == UState::Extracted
                     {
                         let deps = self.unsettled_dependents(&[*id].into_iter().collect());
+                        let skipped = u.info.clone();
+                        self.model.unspend(&skipped, true);
                         self.model.unsettled.remove(id);
                         self.model.removed.insert(*id);
                         self.force_skips(deps);
@@ -1905,7 +1929,10 @@ impl Hist {
                             }
                         }
                     }
-                    self.model.log_spend(&info, knows);
+                    let handed_out = prev
+                        .as_ref()
+                        .is_some_and(|u| u.knows_inputs && u.state == UState::Extracted);
+                    self.model.spend_committed(&info, was_pooled, handed_out);
                     self.model.removed.remove(id);
                     self.model.rolled_back.remove(id);
                     self.model.stale_preconf.remove(id);
